@@ -183,7 +183,10 @@ namespace occa {
 
       const int arrayCount = (int) arrays.size();
       for (int i = 0; i < arrayCount; ++i) {
-        primitive primSize = arrays[i].size->evaluate();
+        // [float v[]] has no size
+        primitive primSize = (arrays[i].size
+                              ? arrays[i].size->evaluate()
+                              : primitive());
         const int size = primSize.isNaN() ? -1 : primSize.to<int>();
         dtype = dtype_t::tuple(dtype, size);
       }
@@ -375,6 +378,11 @@ namespace occa {
       if (!has(typedef_)) {
         return false;
       }
+      // [typedef float real_t;] The declared vartype has the typedef
+      //   qualifier but its type is the aliased type itself
+      if (!type || !(type->type() & typeType::typedef_)) {
+        return false;
+      }
 
       typedef_t &typedefType = *((typedef_t*) type);
       return (
@@ -390,6 +398,11 @@ namespace occa {
       if (!has(typedef_)) {
         return false;
       }
+      // [typedef float real_t;] The declared vartype has the typedef
+      //   qualifier but its type is the aliased type itself
+      if (!type || !(type->type() & typeType::typedef_)) {
+        return false;
+      }
 
       typedef_t &typedefType = *((typedef_t*) type);
       return (
@@ -403,6 +416,11 @@ namespace occa {
         return (typeToken->origin == type->source->origin);
       }
       if (!has(typedef_)) {
+        return false;
+      }
+      // [typedef float real_t;] The declared vartype has the typedef
+      //   qualifier but its type is the aliased type itself
+      if (!type || !(type->type() & typeType::typedef_)) {
         return false;
       }
 
